@@ -122,6 +122,25 @@ Theorem C12_sparse_repaired : forall F bs mx ranges sched,
 Proof. exact copier_sparse_fixed. Qed.
 Print Assumptions C12_sparse_repaired.
 
+(* Faults at close.  run() closes the source and then the destination after the copy; it returns
+   normally exactly when the copy itself succeeded (every block, the total check) AND closing the
+   source AND closing the destination succeeded -- an error reported only by a close is not lost.
+   Together with C12_copy / C12_sparse_repaired: normal return => destination = source. *)
+Theorem C12_copy_close : forall c src_close_ok dst_close_ok,
+  fst (copier_outcome c src_close_ok dst_close_ok) = None <->
+  c_status c = COk /\ src_close_ok = true /\ dst_close_ok = true.
+Proof. exact copier_outcome_ok. Qed.
+Print Assumptions C12_copy_close.
+
+(* Which error is reported when several occur (as the code is: a failing close of the source wins
+   and leaves the destination unclosed, then a failing close of the destination, then the body). *)
+Theorem C12_copy_close_precedence : forall c sc dc,
+  fst (copier_outcome c sc dc) =
+    if negb sc then Some ESrcClose else if negb dc then Some EDstClose
+    else if match c_status c with COk => true | _ => false end then None else Some EBody.
+Proof. exact copier_outcome_precedence. Qed.
+Print Assumptions C12_copy_close_precedence.
+
 (* What the copier does with the total it is given: for ANY announced total <= |F| (sparse, repaired)
    exactly the first total bytes arrive and success is reported -- as C12_copy says for the
    non-sparse case.  The copier trusts total; C12_copy_total below says where total comes from. *)
